@@ -252,7 +252,10 @@ var kindBits = map[string]int{"int": 64, "int8": 8, "int16": 16, "int32": 32, "i
 
 var urlPool = []string{"http://example.com/a?b=c#d", "https://x.y/z", "mailto:me@example.com", "urn:isbn:0451450523", "file:///tmp/x", "a:b", "scheme://host:8080/path/to", "http://example.com/%C3%A9"}
 
-var ianaZones = []string{"Europe/Berlin", "America/New_York", "Asia/Tokyo", "Australia/Sydney", "America/Argentina/Buenos_Aires", "Asia/Kolkata"}
+var ianaZones = []string{"Europe/Berlin", "America/New_York", "Asia/Tokyo", "Australia/Sydney", "America/Argentina/Buenos_Aires", "Asia/Kolkata",
+	// 26 - 32 characters: with the date fields in front of it such a name brings the binary encoding of the time to
+	// the sizes at which an encoder's scratch buffer has to grow (31, 32, 33 bytes)
+	"America/Indiana/Petersburg", "America/Kentucky/Monticello", "America/Indiana/Indianapolis", "America/North_Dakota/New_Salem", "America/Argentina/ComodRivadavia"}
 
 func genTimeSpec(t *rapid.T, label string, o *ValOpts) *TimeSpec {
 	ts := &TimeSpec{}
@@ -322,6 +325,15 @@ func GenVal(t *rapid.T, o *ValOpts, s *TypeSpec, depth int) *Val {
 		}
 		return &Val{F: math.Float64bits(Float64NonNaN(t, "v.f64"))}
 	case "string":
+		if rapid.IntRange(0, 9).Draw(t, "v.strlong") == 0 {
+			// a long string that needs no escape, at and around the sizes at which the encoders' scratch buffers grow
+			n := rapid.SampledFrom([]int{31, 32, 33, 34, 63, 64, 65, 100, 130}).Draw(t, "v.strlen")
+			b := make([]byte, n)
+			for i := range b {
+				b[i] = "abcdefghijklmnopqrstuvwxyz0123456789"[(i*7+n)%36]
+			}
+			return &Val{S: b}
+		}
 		return &Val{S: []byte(UTF8String(t, "v.str", 12, rapid.Bool().Draw(t, "v.strfull")))}
 	case "slice", "array":
 		n := s.Len
@@ -402,6 +414,10 @@ func GenVal(t *rapid.T, o *ValOpts, s *TypeSpec, depth int) *Val {
 		return &Val{Num: BigIntValue(t, "v.bigint").String()}
 	case "bigfloat":
 		f := BigFloatValueMax(t, "v.bigfloat", o.WideBigFloat, 1200)
+		if o.WideBigFloat && f != nil && rapid.IntRange(0, 2).Draw(t, "v.bigfloat.hasmode") == 0 {
+			// a rounding mode other than the default is part of the caller's value too
+			f.SetMode(big.RoundingMode(rapid.IntRange(1, 5).Draw(t, "v.bigfloat.mode")))
+		}
 		return &Val{Num: ev.BigFloatToText(f)}
 	case "apd":
 		return &Val{Num: ev.APDToText(APDValue(t, "v.apd", false))}
